@@ -188,6 +188,7 @@ static void c13_asym(Buf *b) {
     b_free(&t);
 }
 static void scen_c13(int rounds, int nasym) {
+    g_tpm2_statics = 1;   /* a resume or power cycle starts from the load-time image of the library's globals, as in a new process */
     Buf b = {0};
     for (int h = 0; h < 3; h++) {
         tr("hist %d", h);
